@@ -106,8 +106,12 @@ def from_edge(edge: EdgeTemplate, return_dict: dict, base: str = 'EdgeTemplate')
 def add_to_dict(template, template_dict: dict, full_dict: dict):
 
     temp_key = template.name
-    existing_labels = {key: 0 for key in full_dict.keys()}
     if temp_key in full_dict and full_dict[temp_key] != template_dict:
-        temp_key, _ = get_unique_label(temp_key, existing_labels)
+        # another template of that name exists already: re-use the entry of an earlier variant with the same content or take
+        # the next free label (a fixed label would let a third variant overwrite the second one)
+        idx = 1
+        while f"{template.name}_num{idx}" in full_dict and full_dict[f"{template.name}_num{idx}"] != template_dict:
+            idx += 1
+        temp_key = f"{template.name}_num{idx}"
     full_dict[temp_key] = template_dict
     return temp_key
